@@ -9,7 +9,7 @@ import copy
 HOSTS = ['a.test', 'b.test', 'c.test']
 IPS = {'a.test': '10.0.0.1', 'b.test': '10.0.0.2', 'c.test': '10.0.0.3'}
 
-DEFAULT_OPTS = dict(recursive=1, level=0, pagereq=0, spanhosts=0, strong=1, tries=2, maxredir=3, robots=0, auth=0)
+DEFAULT_OPTS = dict(recursive=1, level=0, pagereq=0, spanhosts=0, strong=1, tries=2, maxredir=3, robots=0, auth=0, sitemaps=0)
 
 
 def U(i, kind='page', links=(), host='a.test', rto=0, rejected=0, disallowed=0, nofollow=0, path=None, **kw):
@@ -49,7 +49,8 @@ def header(scn):
     links = []
     for u in urls:
         for l in u['links']:
-            links.append([u['id'], l['to'], 1 if (l.get('inline') or l.get('frame') or l.get('css') or u['kind'] == 'css') else 0])
+            links.append([u['id'], l['to'], 1 if (l.get('inline') or l.get('frame') or l.get('css') or u['kind'] == 'css') else 0,
+                          1 if l.get('implicit') else 0])
     ors = origins_of(scn)
     rk = []
     for o in ors:
@@ -57,7 +58,8 @@ def header(scn):
     return dict(U=n, H=len(hs), OR=len(ors), start=scn['start'], links=links,
                 host=[hs.index(by[i]['host']) + 1 for i in range(1, n + 1)],
                 origin=[ors.index(origin_label(by[i])) + 1 for i in range(1, n + 1)],
-                kind=[('page' if by[i]['kind'] == 'css' else by[i]['kind']) if by[i]['kind'] in ('page', 'redirect', 'css') else 'other'
+                kind=[('page' if by[i]['kind'] in ('css', 'sitemap', 'robotsfile') else by[i]['kind'])
+                      if by[i]['kind'] in ('page', 'redirect', 'css', 'sitemap', 'robotsfile') else 'other'
                       for i in range(1, n + 1)],
                 rto=[by[i].get('rto', 0) for i in range(1, n + 1)],
                 rejected=[by[i]['rejected'] for i in range(1, n + 1)],
@@ -109,6 +111,8 @@ def argv(scn, db, directory):
         a.append('--no-strong-redirects')
     if not o['robots']:
         a.append('--no-robots')
+    if o.get('sitemaps'):
+        a.append('--sitemaps')
     if o['auth'] == 1:
         a += ['--http-user', 'u', '--http-password', 'p']
     elif o['auth'] == 2:
@@ -119,6 +123,22 @@ def argv(scn, db, directory):
 
 
 # ------------------------------------------------------------------ catalogues
+
+def sitemap_sites():
+    """Sites for --sitemaps: /robots.txt and /sitemap.xml of a start URL's origin are queued as children of the start URL
+    (implicit links) and read as documents: Sitemap: lines of robots.txt, <loc> entries of sitemaps."""
+    imp = [dict(to=2, implicit=1), dict(to=3, implicit=1)]
+    basic = [U(1, links=[4] + imp), U(2, path='/robots.txt', kind='robotsfile', links=[5]),
+             U(3, path='/sitemap.xml', kind='sitemap', links=[6, 7, 8, 4]), U(4, links=[6]),
+             U(5, path='/sitemap2.xml', kind='sitemap', links=[9]), U(6), U(7, host='b.test'), U(8, rejected=1), U(9, links=[1])]
+    missing = [U(1, links=[4] + imp), U(2, path='/robots.txt', kind='notfound'), U(3, path='/sitemap.xml', kind='notfound'), U(4)]
+    # the start URL itself is skipped (redirect to a rejected URL): its implicit children are still crawled
+    skipped = [U(1, kind='redirect', rto=4, links=imp), U(2, path='/robots.txt', kind='robotsfile', links=[]),
+               U(3, path='/sitemap.xml', kind='sitemap', links=[5, 6]), U(4, rejected=1), U(5, links=[6]), U(6)]
+    failing = [U(1, kind='error500', links=imp), U(2, path='/robots.txt', kind='notfound'),
+               U(3, path='/sitemap.xml', kind='sitemap', links=[4]), U(4)]
+    return dict(basic=basic, missing=missing, skipped=skipped, failing=failing)
+
 def c01_catalogue(quick):
     out = []
     # diamond with unequal path lengths: r->a,b ; a->c ; b->e ; e->c ; c->x
@@ -175,6 +195,12 @@ def c01_catalogue(quick):
     css = [U(1, links=[dict(to=2, css=1, inline=1), 6]), U(2, kind='css', path='/s/a.css', links=[dict(to=3, imp=1), dict(to=4)]),
            U(3, kind='css', path='/s/b.css', links=[dict(to=5)]), U(4, path='/s/i4.png'), U(5, path='/s/i5.png'), U(6)]
     out.append(scenario('css-import-chain', css, dict(pagereq=1), N=1))
+    sm = sitemap_sites()
+    for nm in ('basic', 'missing', 'skipped'):
+        out.append(scenario('sitemaps-%s' % nm, sm[nm], dict(sitemaps=1), N=1))
+    out.append(scenario('sitemaps-basic-N2', sm['basic'], dict(sitemaps=1), N=2))
+    out.append(scenario('sitemaps-basic-L1', sm['basic'], dict(sitemaps=1, level=1), N=1))
+    out.append(scenario('sitemaps-basic-L2', sm['basic'], dict(sitemaps=1, level=2), N=1))
     # the answer to a page arrives in two parts (head, body) while another worker's redirect is handled in between
     rd2 = [U(1, links=[2, 3, 4]), U(2, kind='redirect', rto=5), U(3, links=[6]), U(4, links=[7]), U(5), U(6), U(7)]
     out.append(scenario('split-answers-redirect-N2', rd2, N=2, split=1))
@@ -201,6 +227,11 @@ def c03_catalogue(quick):
            # a URL that failed transiently before the kill is retried by the resumed run
            scenario('crash-flaky', [U(1, links=[2, 3]), U(2, kind='script', seq=['error500', 'page'], links=[]), U(3)],
                     dict(tries=3), N=1)]
+    sm = sitemap_sites()
+    out.append(scenario('crash-sitemaps-skipped-start', sm['skipped'], dict(sitemaps=1), N=1))
+    if not quick:
+        out.append(scenario('crash-sitemaps-basic', sm['basic'], dict(sitemaps=1), N=2))
+        out.append(scenario('crash-sitemaps-failing-start', sm['failing'], dict(sitemaps=1, tries=2), N=1, benign=1))
     if not quick:
         # more start URLs than one import batch (1000): a kill between two import transactions
         many = scenario('crash-many-start-urls', [U(i, path='/s%04d' % i) for i in range(1, 1004)], N=1,
@@ -337,6 +368,11 @@ def c02_catalogue(quick):
     out.append(scenario('offer-N2', offer, dict(pagereq=1), N=2))
     out.append(scenario('offer-span', offer, dict(spanhosts=1, pagereq=1), N=1))
     out.append(scenario('offer-norecursion', offer, dict(recursive=0, pagereq=1), N=1))
+    sm = sitemap_sites()
+    for lv in (0, 1, 2):
+        out.append(scenario('sitemaps-offer-L%d' % lv, sm['basic'], dict(sitemaps=1, level=lv), N=1))
+    out.append(scenario('sitemaps-offer-norecursion', sm['basic'], dict(sitemaps=1, recursive=0, pagereq=1), N=1))
+    out.append(scenario('sitemaps-offer-span', sm['basic'], dict(sitemaps=1, spanhosts=1), N=1))
     # robots.txt checking on: the control file of an origin that is only ever the target of a REFUSED redirect (or of
     # refused links) is not "an origin being visited"
     rb = {'a.test': {'kind': 'rules'}, 'b.test': {'kind': 'rules'}}
